@@ -236,6 +236,30 @@ class Analyzer:
             self.reached.add(id(st))
             if isinstance(st, ast.Expr) and isinstance(st.value, ast.Constant):
                 continue
+            if isinstance(st, ast.Return) and isinstance(st.value, ast.IfExp):
+                # return a if c else b  ==  if c: return a / else: return b (case split on c)
+                v = st.value
+                desugared = ast.If(test=v.test, body=[ast.copy_location(ast.Return(value=v.body), st)], orelse=[ast.copy_location(ast.Return(value=v.orelse), st)])
+                ast.copy_location(desugared, st)
+                return self._block(fn, [desugared] + list(body[i + 1 :]), env, rel, rets, nanlit)
+            if isinstance(st, ast.Assign) and len(st.targets) == 1 and isinstance(st.targets[0], ast.Tuple) and isinstance(st.value, ast.IfExp):
+                v = st.value
+                mk = lambda x: ast.copy_location(ast.Assign(targets=st.targets, value=x), st)  # noqa: E731
+                rest = list(body[i + 1 :])  # assignments made in an arm must reach the continuation
+                desugared = ast.copy_location(ast.If(test=v.test, body=[mk(v.body)] + rest, orelse=[mk(v.orelse)] + rest), st)
+                return self._block(fn, [desugared], env, rel, rets, nanlit)
+            if isinstance(st, ast.Assign) and len(st.targets) == 1 and isinstance(st.targets[0], ast.Tuple) and isinstance(st.value, ast.Tuple) and len(st.value.elts) == len(st.targets[0].elts) and all(isinstance(x, ast.Name) for x in st.targets[0].elts):
+                vals = [self._ev(fn, x, env, rel) for x in st.value.elts]
+                env = dict(env)
+                for x, xv in zip(st.targets[0].elts, vals):
+                    env[x.id] = xv
+                continue
+            if isinstance(st, ast.Assign) and len(st.targets) == 1 and isinstance(st.targets[0], ast.Name) and isinstance(st.value, ast.IfExp):
+                v = st.value
+                mk = lambda x: ast.copy_location(ast.Assign(targets=st.targets, value=x), st)  # noqa: E731
+                rest = list(body[i + 1 :])  # assignments made in an arm must reach the continuation
+                desugared = ast.copy_location(ast.If(test=v.test, body=[mk(v.body)] + rest, orelse=[mk(v.orelse)] + rest), st)
+                return self._block(fn, [desugared], env, rel, rets, nanlit)
             if isinstance(st, ast.Return):
                 v = st.value
                 if isinstance(v, ast.Name) and v.id == "nan":
